@@ -11,6 +11,7 @@ import (
 	"database/sql"
 	"encoding/json"
 	"fmt"
+	"io"
 	"math"
 	"math/rand"
 	"net/http"
@@ -23,8 +24,11 @@ import (
 	"time"
 	"unicode/utf8"
 
+	"github.com/aws/aws-sdk-go/aws"
 	"github.com/johannesboyne/gofakes3"
 	"github.com/johannesboyne/gofakes3/backend/s3mem"
+	"github.com/jrhy/mast"
+	"github.com/jrhy/s3db"
 	_ "github.com/jrhy/s3db/sqlite"
 	_ "github.com/jrhy/s3db/sqlite/sqlite-autoload-extension"
 	sqlite3 "github.com/mattn/go-sqlite3"
@@ -71,7 +75,7 @@ func (p *s3proxy) ServeHTTP(w http.ResponseWriter, r *http.Request) {
 	if p.plan != nil && kind != "?" {
 		act = p.plan(i, kind, key)
 	}
-	p.log = append(p.log, reqRec{kind, key, act == fOK})
+	p.log = append(p.log, reqRec{kind: kind, key: key, ok: act == fOK})
 	p.mu.Unlock()
 	switch act {
 	case fErr:
@@ -186,10 +190,14 @@ func l2class(prefix, key string) (string, string) {
 
 // version-level mutation tokens + observed merge/retire orders of the op just executed
 func (w *l2world) muts(out *tw) (getOrder, retire []string, nmut int) {
+	return w.mutsG(out, "[", "]")
+}
+
+func (w *l2world) mutsG(out *tw, opn, cls string) (getOrder, retire []string, nmut int) {
 	log := w.px.takeLog()
 	seen := map[string]bool{}
 	out.s("M")
-	out.s("[")
+	out.s(opn)
 	for _, r := range log {
 		cl, name := l2class(w.prefix, r.key)
 		if r.kind == "G" && (cl == "c" || cl == "m") && !seen[name] {
@@ -208,7 +216,7 @@ func (w *l2world) muts(out *tw) (getOrder, retire []string, nmut int) {
 		}
 		out.s(r.kind + cl + w.nm.nm(name))
 	}
-	out.s("]")
+	out.s(cls)
 	return
 }
 
@@ -612,21 +620,80 @@ func (w *l2world) exec(op *sop, stats map[string]int) bool {
 		o.s("version")
 		o.i(op.c)
 	case "vacuum":
+		// rows before, the vacuum, rows after on the same connection, rows seen by a fresh
+		// read-only connection, and a reachability walk of the bucket
+		selAll := func(db *sql.DB, table string) (string, bool) {
+			var t tw
+			rows, err := db.Query("select * from " + table + " order by k")
+			var got [][]sval
+			if err == nil {
+				got, err = scanRows(rows)
+			}
+			if err != nil {
+				return " err", false
+			}
+			t.s("ok")
+			w.rowsOut(&t, got)
+			return t.String(), true
+		}
+		vb, _ := selAll(c.db, c.table)
+		w.px.takeLog()
 		var verr sql.NullString
 		err := c.db.QueryRow("select vacuum_error from s3db_vacuum(?, ?)", c.table, fmtTime(op.before)).Scan(&verr)
 		out.s(";")
 		if err != nil || verr.Valid {
 			out.s("err")
+			if verr.Valid {
+				classifyErr(fmt.Errorf("vacuum: %s", verr.String))
+			}
 		} else {
 			out.s("ok")
 		}
 		var mo tw
-		_, retire, _ := w.muts(&mo)
+		_, retire, _ := w.mutsG(&mo, "{", "}") // history is deleted in map-iteration order
 		out.sb.WriteString(mo.String())
+		va, _ := selAll(c.db, c.table)
+		out.s("VB")
+		out.sb.WriteString(vb)
+		out.s("VA")
+		out.sb.WriteString(va)
+		// fresh reader
+		fdb, ferr := sql.Open("sqlite3", ":memory:")
+		vf := " err"
+		var forder []string
+		if ferr == nil {
+			fdb.SetMaxOpenConns(1)
+			l2counter++
+			ft := fmt.Sprintf("t%d", l2counter)
+			opts := "readonly,\n"
+			if w.epn > 0 {
+				opts += fmt.Sprintf("entries_per_node=%d,\n", w.epn)
+			}
+			w.px.takeLog()
+			_, cerr := fdb.Exec(fmt.Sprintf("create virtual table %s using s3db (\ns3_bucket='%s',\ns3_endpoint='%s',\ns3_prefix='%s',\n%scolumns='%s')",
+				ft, w.bucket, w.px.url, w.prefix, opts, w.colDecl()))
+			if cerr == nil {
+				vf, _ = selAll(fdb, ft)
+			}
+			seen := map[string]bool{}
+			for _, r := range w.px.takeLog() {
+				cl, name := l2class(w.prefix, r.key)
+				if r.kind == "G" && cl == "c" && !seen[name] {
+					seen[name] = true
+					forder = append(forder, name)
+				}
+			}
+			fdb.Close()
+		}
+		out.s("VF")
+		out.sb.WriteString(vf)
+		out.s("RW")
+		out.s(w.reachability())
 		o.s("vacuum")
 		o.i(op.c)
 		o.z(op.before)
 		w.names(&o, retire)
+		w.names(&o, forder)
 		stats["vacuum"]++
 	default:
 		panic("unknown sql op " + op.kind)
@@ -936,10 +1003,86 @@ func replaySQL(r *tr) (string, string) {
 		case "vacuum":
 			op.c, op.before = r.i(), r.z()
 			r.names()
+			r.names()
 		default:
 			panic("replay: unknown sql op " + op.kind)
 		}
 		w.exec(op, stats)
 	}
 	return w.finish()
+}
+
+// reachability: every version object under root/current and root/merged decodes and every
+// node it reaches exists and decodes (walk of the whole bucket through the backend)
+func (w *l2world) reachability() string {
+	pfx := w.prefix + "/s3db-rows/"
+	get := func(key string) ([]byte, bool) {
+		obj, err := w.px.backend.GetObject(w.bucket, key, nil)
+		if err != nil {
+			return nil, false
+		}
+		defer obj.Contents.Close()
+		b, err := io.ReadAll(obj.Contents)
+		return b, err == nil
+	}
+	list := func(sub string) []string {
+		p := gofakes3.NewPrefix(aws.String(pfx+sub), nil)
+		ol, err := w.px.backend.ListBucket(w.bucket, &p, gofakes3.ListBucketPage{})
+		if err != nil {
+			return nil
+		}
+		var keys []string
+		for _, c := range ol.Contents {
+			keys = append(keys, c.Key)
+		}
+		return keys
+	}
+	missing := 0
+	var walk func(link string) bool
+	seen := map[string]bool{}
+	walk = func(link string) bool {
+		if seen[link] {
+			return true
+		}
+		seen[link] = true
+		b, ok := get(pfx + "node/" + link)
+		if !ok {
+			return false
+		}
+		var n mast.Node
+		if err := s3db.VerifUnmarshalNode(b, &n); err != nil {
+			return false
+		}
+		for _, l := range n.Link {
+			if ls, ok := l.(string); ok && ls != "" {
+				if !walk(ls) {
+					return false
+				}
+			}
+		}
+		return true
+	}
+	for _, sub := range []string{"root/current/", "root/merged/"} {
+		for _, k := range list(sub) {
+			b, ok := get(k)
+			if !ok {
+				missing++
+				continue
+			}
+			var root struct {
+				Link *string
+			}
+			if err := json.Unmarshal(b, &root); err != nil {
+				missing++
+				continue
+			}
+			if root.Link != nil && !walk(*root.Link) {
+				missing++
+			}
+		}
+	}
+	if missing == 0 {
+		return "ok"
+	}
+	return "missing:" + strconv.Itoa(missing)
 }
